@@ -3,6 +3,7 @@ reference framing of a byte stream into packets (written from the format
 descriptions) and the decoder entry point that belongs to each kind."""
 from __future__ import annotations
 
+from . import common  # noqa: F401  (must come first: puts the tree under test on sys.path)
 from . import wire
 from nmea2000.decoder import NMEA2000Decoder
 
